@@ -19,8 +19,15 @@ def gen_field(rng, nd=None):
     p1 = [F(rng.randint(-40, 40), 4) for _ in range(nd)]
     vals = [F(rng.randint(-50, 50), rng.choice([1, 1, 2, 4])) for _ in range(math.prod(sh) * nvdim)]
     names = rng.sample(["x", "y", "z", "a", "b", "r", "t", "q"], nd) if (rng.random() < 0.5 or nd > 3) else None
+    dtype = rng.choice(["float", "float", "int", "none"])
+    if dtype == "int":
+        vals = [F(int(v)) for v in vals]
+    pm = rng.choice([0.0, 0.0, 0.3, 0.7])
+    valid = [rng.random() >= pm for _ in range(math.prod(sh))]
+    # operations carried out on the field's mesh BEFORE the integral is taken (stale-cache / in-place paths)
+    pre = rng.choice([None, None, "scale2", "scale1/2", "translate"])
     return dict(sh=sh, nvdim=nvdim, cell=[g.qs(x) for x in cell], p1=[g.qs(x) for x in p1],
-                vals=[g.qs(v) for v in vals], dims=names)
+                vals=[g.qs(v) for v in vals], dims=names, dtype=dtype, valid=valid, pre=pre)
 
 
 def build(c, shift=None):
@@ -32,8 +39,21 @@ def build(c, shift=None):
     p2 = [a + k * h for a, k, h in zip(p1, sh, cell)]
     region = df.Region(p1=[float(x) for x in p1], p2=[float(x) for x in p2], dims=c.get("dims"))
     mesh = df.Mesh(region=region, n=sh)
-    arr = np.array([float(F(x)) for x in c["vals"]], dtype=float).reshape(*sh, c["nvdim"])
-    return df.Field(mesh, nvdim=c["nvdim"], value=arr)
+    dt = {"float": float, "int": int, "none": None}[c.get("dtype", "float")]
+    arr = np.array([float(F(x)) for x in c["vals"]], dtype=dt or float).reshape(*sh, c["nvdim"])
+    valid = np.array(c.get("valid", [True] * math.prod(sh)), dtype=bool).reshape(*sh)
+    f = df.Field(mesh, nvdim=c["nvdim"], value=arr, dtype=dt, valid=valid)
+    pre = c.get("pre")
+    if pre:
+        f.integrate()            # touch every cached geometric quantity first
+        _ = f.mesh.dV, f.mesh.cell
+        if pre == "scale2":
+            f.mesh.scale(2, reference_point=[float(x) for x in p1], inplace=True)
+        elif pre == "scale1/2":
+            f.mesh.scale(0.5, reference_point=[float(x) for x in p1], inplace=True)
+        else:
+            f.mesh.translate([float(k) for k in sh], inplace=True)
+    return f
 
 
 def generate(rng, tier):
@@ -68,7 +88,8 @@ def run_case(c):
     f = build(fc)
     sh, nvdim = fc["sh"], fc["nvdim"]
     nd = len(sh)
-    cell = [F(x) for x in fc["cell"]]
+    fac = {"scale2": 2, "scale1/2": F(1, 2)}.get(fc.get("pre"), 1)
+    cell = [F(x) * fac for x in fc["cell"]]
     dims = f.mesh.region.dims
     A = np.array([F(x) for x in fc["vals"]], dtype=object).reshape(*sh, nvdim)
     pre = f"{g.nl(sh)} {g.nat(nvdim)}"
